@@ -18,7 +18,7 @@ from .. import facade
 from . import c12
 
 PID = "C14"
-EXCS = ["ValueError", "KeyError", "RecursionError", "KeyboardInterrupt"]
+EXCS = ["ValueError", "TypeError", "KeyError", "AttributeError", "RecursionError", "IndexError", "KeyboardInterrupt", "StopIteration"]
 
 
 def count_sites(preset, doc):
@@ -47,10 +47,13 @@ def crash_histories(tier):
                     step = n // 40 + 1
                     ks = sorted(set(list(range(1, n + 1, step)) + [1, 2, n - 1, n]))
                 for k in ks:
-                    hs.append([{"op": "construct", "i": 1, "preset": p, "upd": [["highlight", "H"]]},
-                               {"op": "use", "i": 1},
-                               {"op": "add_render_rule", "i": 1, "name": "text"},
-                               {"op": "fault", "i": 1, "doc": d, "site": site, "exc": EXCS[k % 4], "k": k}])
+                    # two exception types per crash point; every type at the first / last invocation of a site
+                    excs = EXCS if k in (1, n) else [EXCS[k % len(EXCS)], EXCS[(k * 3 + 1) % len(EXCS)]]
+                    for x in excs:
+                        hs.append([{"op": "construct", "i": 1, "preset": p, "upd": [["highlight", "H"]]},
+                                   {"op": "use", "i": 1},
+                                   {"op": "add_render_rule", "i": 1, "name": "text"},
+                                   {"op": "fault", "i": 1, "doc": d, "site": site, "exc": x, "k": k}])
     return hs, total
 
 
